@@ -331,6 +331,18 @@ func (s *Sched) ParkedIDs() []int64 {
 	return ids
 }
 
+// ParkedAt returns the goroutine parked at the given hook point (0: none).
+func (s *Sched) ParkedAt(point string) int64 {
+	s.mu.Lock()
+	defer s.mu.Unlock()
+	for g, a := range s.Parked {
+		if a.Point == point {
+			return g
+		}
+	}
+	return 0
+}
+
 // Release lets one parked goroutine continue.
 func (s *Sched) Release(gid int64) {
 	s.mu.Lock()
